@@ -327,13 +327,6 @@ def run(report, p):
                     r5.instance(None, n, f"{m.name} imports {nm}")
                     r5.check(m.name.endswith("hasher"), None, n, f"digest library {nm} is imported by {m.name}: a second hashing implementation next to the hasher module", construct=f"{m.name} imports {nm}")
     loop_q = {f.qual for f, _ in loops}
-    for name, c in cmds.items():
-        reach = p.reachable([c.qual])
-        for fq in reach:
-            f = p.funcs[fq]
-            for call, tg in p.calls[fq]:
-                if any(t == "extm:open().read" for t in tg) and fq not in loop_q:
-                    r5.check(False, f, call, f"file content is read outside the two hashing loops (reachable from {name})", construct=f"read in {fq}")
     # entry points route through the loops
     for ep in ("hash_file", "multiple_format_hash_file"):
         f = p.funcs.get("ascmhl.hasher." + ep)
